@@ -49,11 +49,11 @@ EXHAUSTIVE = {
                 "each of the 8 recognisers",
 }
 TRUSTED = [
-    "the PQ-tree code of consecutive_ones.py is MIRRORED (Model/PQTree.v) and the mirror is proved total (only "
-    "ValueError) and SOUND (pq_reorder_sound: every answer is accepted by sets_check; chained to pq_solve_sound, "
-    "pq_isC1P_sound and the six recognisers); NOT proved: completeness (ValueError only if no arrangement exists) - "
-    "this half is compared with the verified references sets_decide / c1p_decide while the permuted dimension is "
-    "<= 8 and, beyond, through planted certificates",
+    "the PQ-tree code of consecutive_ones.py is MIRRORED (Model/PQTree.v); the mirror is proved total (only "
+    "ValueError), SOUND (pq_reorder_sound) and COMPLETE (pq_reorder_complete: ValueError only if no arrangement "
+    "exists), chained to the mirrored solver, isC1P and the six recognisers (pq_solve_correct, pq_isC1P_correct, "
+    "pq_*_complete); what ties the Python code to the mirror is the exact-equality comparison on every contract-test "
+    "family; the comparisons with the references sets_decide / c1p_decide remain as an independent cross-check",
     "floats of is_dichotomous_euclidean are converted exactly with fractions.Fraction (positions are halves of small "
     "integers, exact in IEEE double)",
     "numpy array construction / transpose / vstack / argwhere",
